@@ -6,12 +6,13 @@ import json, os, re, shutil, sys, glob
 
 OUT = "/verif/seeded"
 rows = []
-for vj in sorted(glob.glob("/tmp/val/C*-m*.json")) + sorted(glob.glob("/tmp/val/R2C*-m*.json")):
+for vj in sorted(glob.glob("/tmp/val/C*-m*.json")) + sorted(glob.glob("/tmp/val/R2C*-m*.json")) + sorted(glob.glob("/tmp/val/R3C*-m*.json")):
     tag = os.path.basename(vj)[:-5]
     d = json.load(open(vj))
     cand = d["candidate"]
     round2 = tag.startswith("R2")
-    prop, m = (tag[2:] if round2 else tag).split("-")
+    round3 = tag.startswith("R3")
+    prop, m = (tag[2:] if (round2 or round3) else tag).split("-")
     ok = (d.get("demo_pristine_rc") == 0 and d.get("applies") and d.get("build_rc") == 0
           and d.get("tests", {}).get("failed") == 0 and d.get("tests", {}).get("rc") == 0 and (d.get("demo_mutated_rc") or 0) != 0)
     if not ok:
@@ -20,6 +21,8 @@ for vj in sorted(glob.glob("/tmp/val/C*-m*.json")) + sorted(glob.glob("/tmp/val/
     idx = {"m1": 1, "m2": 2, "m1b": 1}.get(m, 9)
     if round2:
         idx += 2
+    if round3:
+        idx += 4
     sid = "%s-%d" % (prop, idx) if not (prop == "C09" and idx == 1) else "C09-2"
     if prop == "C09" and idx >= 2:
         sid = "C09-%d" % (idx + 1)
@@ -51,7 +54,7 @@ for vj in sorted(glob.glob("/tmp/val/C*-m*.json")) + sorted(glob.glob("/tmp/val/
             }
     meta = {
         "property": prop,
-        "source": "independent sub-agent given only the property text and a scratch worktree of /repo (nothing from /verif)" + ("; round 2: asked for less direct mechanisms than a swapped intrinsic, a dropped assert or a re-bound table row" if round2 else ""),
+        "source": "independent sub-agent given only the property text and a scratch worktree of /repo (nothing from /verif)" + ("; round 2: asked for less direct mechanisms than a swapped intrinsic, a dropped assert or a re-bound table row" if round2 else "") + ("; round 3: asked to avoid every mechanism of rounds 1 and 2 (edges, NaN/zero handling, casts, offsets, build profiles, environment, two-call interactions, ...)" if round3 else ""),
         "needs_to_manifest": needs,
         "what_i_ran": [
             "tools/validate_seed.sh: fresh scratch worktree of /repo; demo/run.sh on the pristine tree: exit %s" % d.get("demo_pristine_rc"),
@@ -65,14 +68,28 @@ for vj in sorted(glob.glob("/tmp/val/C*-m*.json")) + sorted(glob.glob("/tmp/val/
     json.dump(meta, open(os.path.join(dst, "meta.json"), "w"), indent=1)
     rows = [r for r in rows if r[0] != sid]  # a later validation of the same seeded change replaces the earlier one
     rows.append((sid, prop, checks))
+# the table is rebuilt from every seeded/<id>/meta.json (scratch results of earlier rounds may be gone)
+allrows = []
+for d in sorted(glob.glob(os.path.join(OUT, "C*-*"))):
+    try:
+        m = json.load(open(os.path.join(d, "meta.json")))
+    except Exception:
+        continue
+    det = m.get("detected_by")
+    if not isinstance(det, dict) or not all(isinstance(v, dict) for v in det.values()):
+        continue
+    allrows.append((os.path.basename(d), m.get("property", "?"), det))
 with open(os.path.join(OUT, "README.md"), "w") as fh:
     fh.write("# Seeded defects and which checks catch them\n\nEach directory: `patch.diff` (applies to /repo HEAD at the time of validation), `demo/` (fails with the patch, "
              "passes without), `NOTES.md` (the author's description), `meta.json` (what was run, what each check reported).\n\n"
              "| seeded | property | check results (V = VIOLATION whose replay is a concrete failing input of the real code or a concrete failing state of the model — register, table row, feature combination —, V* = VIOLATION no-failing-input-found, - = not detected by that check; the validation of an entry reflects the checks as they were when it was last run, see meta.json) |\n|---|---|---|\n")
-    for sid, prop, checks in sorted(rows, key=lambda r: (r[0], r[1])):
+    def key(r):
+        p, k = r[0].split("-")
+        return (p, int(k))
+    for sid, prop, checks in sorted(allrows, key=key):
         cells = []
         for k, v in sorted(checks.items()):
-            s = "V" if v["concrete_failing_input"] else ("V*" if v["result"] == "VIOLATION" else "-")
-            cells.append("%s:%s" % (k, s))
+            c = "V" if v.get("concrete_failing_input") else ("V*" if v.get("result") == "VIOLATION" else "-")
+            cells.append("%s:%s" % (k, c))
         fh.write("| %s | %s | %s |\n" % (sid, prop, ", ".join(cells)))
-print(len(rows), "seeded defects collected")
+print(len(rows), "seeded defects collected in this run;", len(allrows), "in the table")
